@@ -68,7 +68,7 @@ Section WithCfg.
   Lemma sock_deliver c e : sock_mono c (fst (deliver app c e)).
   Proof.
     eapply fr_deliver with (P := sock_mono) (ok_item := fun _ => True);
-      try (intros; apply write_from_emit with (ok_item := fun _ => True));
+      try (intros; apply send_from_emit with (ok_item := fun _ => True));
       try (unfold sock_mono; intros; cbn; auto; fail); try (intros; exact I).
   Qed.
 
